@@ -200,8 +200,8 @@ class RefBrokerClient(object):
 
     def _write(self, entry, rid):
         entry[0] = True
-        if not self.disconnecting:
-            self.writes.setdefault(self.connected, bytearray()).extend(struct.pack(">I", len(entry[3])) + entry[3])
+        # (bytes written between loseConnection() and the actual close are still flushed, as on a real TCP transport)
+        self.writes.setdefault(self.connected, bytearray()).extend(struct.pack(">I", len(entry[3])) + entry[3])
         if not entry[2]:
             del self.table[rid]
             self._complete(rid, "none")
